@@ -273,6 +273,7 @@ def read_sensortran_single(file: Path) -> tuple[dict, dict]:
     """
     import struct
     from datetime import datetime
+    from datetime import timezone
 
     meta = {}
     data = {}
@@ -288,7 +289,11 @@ def read_sensortran_single(file: Path) -> tuple[dict, dict]:
         meta["num_skipped"] = struct.unpack("<i", f.read(4))[0]
 
         data["reference_temperature"] = struct.unpack("<f", f.read(4))[0]
-        data["time"] = datetime.fromtimestamp(struct.unpack("<i", f.read(4))[0])
+        # the header stores seconds since the epoch: an instant, read as UTC
+        # (coords_time is told that the input is UTC), not as host-local time
+        data["time"] = datetime.fromtimestamp(
+            struct.unpack("<i", f.read(4))[0], tz=timezone.utc
+        ).replace(tzinfo=None)
 
         meta["probe_name"] = f.read(128).decode("utf-16").split("\x00")[0]
 
